@@ -278,6 +278,7 @@ ro!(X_V8L16, 8, 10);
 ro!(X_U8L16, 8, 10);
 ro!(X_U8P, 8, 10);
 ro!(U_E5, 18, 20);
+ro!(U_E6, 8, 10);
 ro!(X_S, 5, 7);
 ro!(X_P, 8, 10);
 ro!(U_S1, 12, 14);
